@@ -6,7 +6,7 @@ Save / change / restore discipline on every path of every __enter__/__exit__, pa
 import ast
 import os
 
-from ..cfg import CFG, conjuncts, enumerate_paths
+from ..cfg import CFG, G, conjuncts, enumerate_paths
 from ..report import AnalysisError, VERIF
 from ..srcmodel import Source, is_self_attr, local_aliases, unparse
 
@@ -184,10 +184,8 @@ def _path_relevant(path, change_guard, exempt_attrs):
 
 
 def _is_exempt(text, pol, exempt_attrs):
-    if not pol:
-        return False
     for a in exempt_attrs:
-        if text == "%s is not None" % a:
+        if (text, pol) == G("%s is not None" % a):
             return True
     return False
 
@@ -425,6 +423,48 @@ def check_class(src, rep, m, c, en, ex, counts):
                            "take a different branch than __enter__ did"
                            % (node.attr, ", ".join("%s (%s)" % (f.where(n), f.qualname) for f, n in bad)))
 
+    # ---- M3b: the saved value must stay what it was: no store through it, or through a (shallow) copy of it into
+    # a nested element (termios attribute lists hold the control-character list as a nested mutable list)
+    saved_names = {e.saved_to for e in en_eff if e.saved_to and e.saved_to.startswith("self.")}
+    for f in (en, ex):
+        al = {}     # local -> ('same' | 'shallow', saved attr)
+        for n in sorted((x for x in f.own_nodes() if isinstance(x, ast.Assign) and len(x.targets) == 1 and isinstance(x.targets[0], ast.Name)),
+                        key=lambda x: x.lineno):
+            v = n.value
+            t = unparse(v)
+            if t in saved_names:
+                al[n.targets[0].id] = ("same", t)
+            elif isinstance(v, ast.Call) and unparse(v.func) in ("list", "copy.copy", "copy") and v.args and unparse(v.args[0]) in saved_names:
+                al[n.targets[0].id] = ("shallow", unparse(v.args[0]))
+            elif isinstance(v, ast.Subscript) and isinstance(v.slice, ast.Slice) and unparse(v.value) in saved_names:
+                al[n.targets[0].id] = ("shallow", unparse(v.value))
+            elif isinstance(v, ast.Subscript) and isinstance(v.value, ast.Name) and v.value.id in al:
+                al[n.targets[0].id] = ("same", al[v.value.id][1])     # an element of the saved structure (e.g. the cc list)
+            elif isinstance(v, ast.Call) and unparse(v.func) == "cast" and len(v.args) == 2 and isinstance(v.args[1], ast.Subscript) and \
+                    isinstance(v.args[1].value, ast.Name) and v.args[1].value.id in al:
+                al[n.targets[0].id] = ("same", al[v.args[1].value.id][1])
+        for n in f.own_nodes():
+            tg = n.targets if isinstance(n, ast.Assign) else [n.target] if isinstance(n, ast.AugAssign) else []
+            for t in tg:
+                if not isinstance(t, ast.Subscript):
+                    continue
+                depth = 0
+                base = t
+                while isinstance(base, ast.Subscript):
+                    base = base.value
+                    depth += 1
+                bt = unparse(base)
+                hit = None
+                if bt in saved_names:
+                    hit = bt
+                elif isinstance(base, ast.Name) and base.id in al:
+                    kind, sv = al[base.id]
+                    if kind == "same" or depth >= 2:
+                        hit = sv
+                if hit:
+                    rep.ob("M3-saved-state-not-mutated", f.where(n), f.scope, unparse(n), False,
+                           "this store writes into %s (directly, or through an alias / shallow copy whose nested lists are shared): "
+                           "the value restored on exit is no longer the state found on entering" % hit)
     # ---- restores in __exit__ that have no change in __enter__ are harmless; but a tty/fl/signal *set* in
     # __exit__ whose value is not a saved attribute is a state change made on the way out.
     saved_attrs = {e.saved_to for e in en_eff if e.saved_to}
